@@ -213,6 +213,71 @@ def anyF32 (a b c : FVal) : Bool := a.kind == .f32 || b.kind == .f32 || c.kind =
 def maxPos (a b : Nat × Int) : Nat × Int := if DyLt a.1 a.2 b.1 b.2 then b else a
 def minPos (a b : Nat × Int) : Nat × Int := if DyLt b.1 b.2 a.1 a.2 then b else a
 
+/-- Spec verdict for the OFM pair of the simplified add/sub derivation -/
+def addVerdict (a b c : FVal) (sh : Nat) (q s : Int) : Option String := do
+  let pa ← posNorm a.val
+  let pb ← posNorm b.val
+  let (mo, eo) ← posNorm c.val
+  let mx := maxPos pa pb
+  let cls := if anyF32 a b c then "f32" else "u"
+  -- (1) fields, (2) real quotient 2·max / (out · 2^sh) to double-derivation precision,
+  -- (3) equality with the reference (double) derivation
+  let tol := pairTol .f64
+  let ref := simplifiedAddSub ieee (asF64 a) (asF64 b) (asF64 c) sh
+  let refOk : Bool := match ref with
+    | .ok r => r.outScale == q && r.outShift == s
+    | .error _ => false
+  let v := pairVsRatio q s (2 * mx.1) mx.2 (mo * 2 ^ sh) eo tol
+  if v != "1" then some s!"{v}:{cls}"
+  else if ¬ refOk then some s!"0:reference:{cls}"
+  else some "1"
+
+/-- Spec verdict for the result of the advanced add/sub derivation -/
+def advVerdict (a b c : FVal) (bd : Int) (iq ish q s : Int) (op : Nat) : Option String := do
+  let pa ← posNorm a.val
+  let pb ← posNorm b.val
+  let (mo, eo) ← posNorm c.val
+  let sh : Nat := if bd = 8 then 20 else 15
+  let mx := maxPos pa pb
+  let mn := minPos pa pb
+  let cls := if anyF32 a b c then "f32" else "u"
+  let tol := pairTol .f64
+  let ref := advancedAddSub ieee (asF64 a) (asF64 b) (asF64 c) bd
+  let refOk : Bool := match ref with
+    | .ok r => r.inScale == iq && r.inShift == ish && r.outScale == q && r.outShift == s &&
+               (if r.opToScale == .opa then 1 else 2) == op
+    | .error _ => false
+  -- the operand that is rescaled must be the one with the smaller scale; when the two scales
+  -- agree to 2^-20 either choice is accepted (the ratio clauses below bound the error)
+  let aLtB := decide (DyLt (pa.1 * 2 ^ 20) pa.2 (pb.1 * (2 ^ 20 - 1)) pb.2)
+  let bLtA := decide (DyLt (pb.1 * 2 ^ 20) pb.2 (pa.1 * (2 ^ 20 - 1)) pa.2)
+  let opOk := if aLtB then op == 1 else if bLtA then op == 2 else (op == 1 || op == 2)
+  let vi := pairVsRatio iq ish (mn.1 * 2 ^ sh) mn.2 (2 * mx.1) mx.2 tol
+  let vo := pairVsRatio q s (2 * mx.1) mx.2 (mo * 2 ^ sh) eo tol
+  if ¬ opOk then some "0:operand:u"
+  else if vi != "1" then some s!"{vi}:in:{cls}"
+  else if vo != "1" then some s!"{vo}:out:{cls}"
+  else if ¬ refOk then some s!"0:reference:{cls}"
+  else some "1"
+
+def mulVerdict (a b c : FVal) (q s : Int) : Option String := do
+  let (m1, e1) ← posNorm a.val
+  let (m2, e2) ← posNorm b.val
+  let (mo, eo) ← posNorm c.val
+  let k1 := promote a.kind b.kind
+  let k := if k1 == .f32 then FKind.f32 else promote k1 c.kind
+  some (pairVsRatio q s (m1 * m2) (e1 + e2) mo eo (pairTol k))
+
+def optStr : Option Int → String
+  | some x => toString x
+  | none => "-"
+
+def ewRegsStr : Except Err EwRegs → String
+  | .error e => errStr e
+  | .ok r =>
+    let opa := match r.opa with | some (a, b) => s!"{a} {b}" | none => "- -"
+    s!"ok {opa} {optStr r.opb} {r.ofmScale} {r.ofmShift} {r.opToScale}"
+
 def handle : List String → Option String
   | "qscale" :: rest => do
     let (d, _) ← parseDbl rest
@@ -296,50 +361,27 @@ def handle : List String → Option String
     let (a, rest) ← parseFVal rest
     let (b, rest) ← parseFVal rest
     let (c, rest) ← parseFVal rest
-    let (m1, e1) ← posNorm a.val
-    let (m2, e2) ← posNorm b.val
-    let (mo, eo) ← posNorm c.val
     match rest with
     | [q, s] => do
       let q ← parseInt? q
       let s ← parseInt? s
-      let k1 := promote a.kind b.kind
-      let k := if k1 == .f32 then FKind.f32 else promote k1 c.kind
-      some (pairVsRatio q s (m1 * m2) (e1 + e2) mo eo (pairTol k))
+      mulVerdict a b c q s
     | _ => none
   | "addspec" :: rest => do
     let (a, rest) ← parseFVal rest
     let (b, rest) ← parseFVal rest
     let (c, rest) ← parseFVal rest
-    let pa ← posNorm a.val
-    let pb ← posNorm b.val
-    let (mo, eo) ← posNorm c.val
     match rest with
     | [sh, q, s] => do
       let sh ← parseNat? sh
       let q ← parseInt? q
       let s ← parseInt? s
-      let mx := maxPos pa pb
-      let cls := if anyF32 a b c then "f32" else "u"
-      -- (1) fields, (2) real quotient 2·max / (out · 2^sh) to double-derivation precision,
-      -- (3) equality with the reference (double) derivation
-      let tol := pairTol .f64
-      let ref := simplifiedAddSub ieee (asF64 a) (asF64 b) (asF64 c) sh
-      let refOk : Bool := match ref with
-        | .ok r => r.outScale == q && r.outShift == s
-        | .error _ => false
-      let v := pairVsRatio q s (2 * mx.1) mx.2 (mo * 2 ^ sh) eo tol
-      if v != "1" then some s!"{v}:{cls}"
-      else if ¬ refOk then some s!"0:reference:{cls}"
-      else some "1"
+      addVerdict a b c sh q s
     | _ => none
   | "advspec" :: rest => do
     let (a, rest) ← parseFVal rest
     let (b, rest) ← parseFVal rest
     let (c, rest) ← parseFVal rest
-    let pa ← posNorm a.val
-    let pb ← posNorm b.val
-    let (mo, eo) ← posNorm c.val
     match rest with
     | [bd, iq, ish, q, s, op] => do
       let bd ← parseInt? bd
@@ -348,28 +390,64 @@ def handle : List String → Option String
       let q ← parseInt? q
       let s ← parseInt? s
       let op ← parseNat? op
-      let sh : Nat := if bd = 8 then 20 else 15
-      let mx := maxPos pa pb
-      let mn := minPos pa pb
-      let cls := if anyF32 a b c then "f32" else "u"
-      let tol := pairTol .f64
-      let ref := advancedAddSub ieee (asF64 a) (asF64 b) (asF64 c) bd
-      let refOk : Bool := match ref with
-        | .ok r => r.inScale == iq && r.inShift == ish && r.outScale == q && r.outShift == s &&
-                   (if r.opToScale == .opa then 1 else 2) == op
-        | .error _ => false
-      -- the operand that is rescaled must be the one with the smaller scale; when the two scales
-      -- agree to 2^-20 either choice is accepted (the ratio clauses below bound the error)
-      let aLtB := decide (DyLt (pa.1 * 2 ^ 20) pa.2 (pb.1 * (2 ^ 20 - 1)) pb.2)
-      let bLtA := decide (DyLt (pb.1 * 2 ^ 20) pb.2 (pa.1 * (2 ^ 20 - 1)) pa.2)
-      let opOk := if aLtB then op == 1 else if bLtA then op == 2 else (op == 1 || op == 2)
-      let vi := pairVsRatio iq ish (mn.1 * 2 ^ sh) mn.2 (2 * mx.1) mx.2 tol
-      let vo := pairVsRatio q s (2 * mx.1) mx.2 (mo * 2 ^ sh) eo tol
-      if ¬ opOk then some "0:operand:u"
-      else if vi != "1" then some s!"{vi}:in:{cls}"
-      else if vo != "1" then some s!"{vo}:out:{cls}"
-      else if ¬ refOk then some s!"0:reference:{cls}"
-      else some "1"
+      advVerdict a b c bd iq ish q s op
+    | _ => none
+  -- ------------------------------------------------------------------ call sites (registers)
+  | "ewreg" :: "mul" :: rest => do
+    let (a, rest) ← parseFVal rest
+    let (b, rest) ← parseFVal rest
+    let (c, _) ← parseFVal rest
+    some (ewRegsStr (ewRegistersMul ieee a b c))
+  | "ewreg" :: "add" :: bd :: rev :: rest => do
+    let bd ← parseInt? bd
+    let rev ← parseNat? rev
+    let (a, rest) ← parseFVal rest
+    let (b, rest) ← parseFVal rest
+    let (c, _) ← parseFVal rest
+    some (ewRegsStr (ewRegistersAddSub ieee bd a b c (rev == 1)))
+  | ["poolreg", k, n] => do
+    let k ← parseKind k
+    let n ← parseInt? n
+    some (pairStr (poolRegistersEqualScales ieee k n))
+  | "ewregspec" :: "mul" :: rest => do
+    let (a, rest) ← parseFVal rest
+    let (b, rest) ← parseFVal rest
+    let (c, rest) ← parseFVal rest
+    match rest with
+    | [q, s] => do
+      let q ← parseInt? q
+      let s ← parseInt? s
+      mulVerdict a b c q s
+    | _ => none
+  | "ewregspec" :: "add" :: bd :: rev :: rest => do
+    -- Spec on the OPA/OPB/OFM_SCALE registers of an ADD/SUB:  … opa opa_shift opb ofm ofm_shift op
+    let bd ← parseInt? bd
+    let rev ← parseNat? rev
+    let (a, rest) ← parseFVal rest
+    let (b, rest) ← parseFVal rest
+    let (c, rest) ← parseFVal rest
+    match rest with
+    | [opa, opash, opb, q, s, op] => do
+      let opa ← parseInt? opa
+      let opash ← parseInt? opash
+      let opb ← parseInt? opb
+      let q ← parseInt? q
+      let s ← parseInt? s
+      let op ← parseNat? op
+      if opb != 0 then
+        -- both operands rescaled by a constant: only sound for exactly equal input scales;
+        -- 8 bit: factor 2^15 each, OFM pair for shift 16; 16 bit: factor 2^14 and the OFM shift one smaller
+        let pa ← posNorm a.val
+        let pb ← posNorm b.val
+        if ¬ DyEq pa.1 pa.2 pb.1 pb.2 then some "0:simplified-with-unequal-scales:u"
+        else if op != 0 ∨ opash != 0 then some "0:simplified-fields:u"
+        else if bd = 16 then
+          (if opa != 2 ^ 14 ∨ opb != 2 ^ 14 then some "0:operand-factor:u" else addVerdict a b c 16 q (s + 1))
+        else
+          (if opa != 2 ^ 15 ∨ opb != 2 ^ 15 then some "0:operand-factor:u" else addVerdict a b c 16 q s)
+      else
+        let op' := if rev == 1 then (if op == 1 then 2 else if op == 2 then 1 else op) else op
+        advVerdict a b c bd opa opash q s op'
     | _ => none
   | _ => none
 
